@@ -207,9 +207,9 @@ pub fn generate(ctx: &mut Ctx) {
     let pool = Pool::new(4);
     let w1 = world(&pool);
     let w2 = world_with(&pool, false);
-    let n = if ctx.tier_thorough { 8000 } else { 1200 };
+    let n = if ctx.tier_thorough { 12000 } else { 2400 };
     for _ in 0..n {
-        let w = if rng.chance(1, 5) { &w2 } else { &w1 };
+        let w = if rng.chance(1, 3) { &w2 } else { &w1 };
         let ty = *rng.pick(&["so", "so", "roa", "roa", "aspa", "mft", "sop"]);
         let mut now = T0;
         let mut crl_ok = true;
@@ -288,15 +288,15 @@ pub fn generate(ctx: &mut Ctx) {
                 (pki::CT_ROA.to_vec(), content)
             }
             "aspa" => {
-                let customer = match rng.below(5) { 0 => 64495u32, 1 => 64512, 2 => 65536, _ => rng.range(64496, 64511) as u32 };
+                let customer = match rng.below(10) { 0 => 64495u32, 1 => 64512, 2 => 65536, _ => rng.range(64496, 64511) as u32 };
                 let mut provs: Vec<u32> = (0..rng.range(1, 5)).map(|_| rng.range(1, 70000) as u32).filter(|p| *p != customer).collect();
                 provs.sort(); provs.dedup();
                 if provs.is_empty() { provs.push(1); }
-                match rng.below(8) {
+                match rng.below(12) {
                     0 => ee.asn = Res::Inherit,
                     1 => { ee.asn = Res::Blocks(vec![(customer as u128, customer as u128)]); ee.v4 = Res::Blocks(vec![(0x0A00_0000, 0x0A00_00FF)]); }
-                    2 => { ee.asn = Res::Blocks(vec![(customer as u128, customer as u128)]); if rng.bool() { ee.v6 = Res::Inherit; } else { ee.v4 = Res::Inherit; } }
-                    3 => { ee.asn = Res::Blocks(vec![(64500, 64501)]); }
+                    2 | 3 => { ee.asn = Res::Blocks(vec![(customer as u128, customer as u128)]); if rng.chance(2, 3) { ee.v6 = Res::Inherit; } else { ee.v4 = Res::Inherit; } }
+                    4 => { ee.asn = Res::Blocks(vec![(64500, 64501)]); }
                     _ => { ee.asn = Res::Blocks(vec![(customer as u128, customer as u128)]); }
                 }
                 ee.trim = rng.chance(1, 3);
@@ -351,7 +351,9 @@ pub fn generate(ctx: &mut Ctx) {
             cms_version: 3, si_version: 3,
         };
         let mut sig_over = 0u64;     // 0: DER SET OF of the attributes as written
-        match rng.below(26) {
+        // half of the cases carry no envelope deviation, so that the object-specific conditions (coverage, ASPA
+        // resource rules, content profile) are met on their own often enough
+        match if rng.bool() { rng.below(22) } else { 99 } {
             0 => { c.sid[rng.below(20) as usize] ^= 1 << rng.below(8); }
             1 => { c.sig_key = 3; }
             2 => { c.flip_sig = true; }
